@@ -150,16 +150,18 @@ static const char *S_IMP_LIB1 = PROLOG
     "<model xmlns=\"" NS20 "\" xmlns:xlink=\"" NSXLINK "\" name=\"lib1\">\n"
     "  <import xlink:href=\"lib2.xml\">\n"
     "    <units name=\"lu2\" units_ref=\"base2\"/>\n"
+    "    <units name=\"lu3\" units_ref=\"other2\"/>\n"
     "    <component name=\"inner\" component_ref=\"leaf\"/>\n"
     "  </import>\n"
     "  <units name=\"lu\"><unit units=\"lu2\"/></units>\n"
-    "  <component name=\"lc\"><variable name=\"v\" units=\"lu\" interface=\"public_and_private\"/></component>\n"
+    "  <component name=\"lc\"><variable name=\"q\" units=\"lu3\"/><variable name=\"v\" units=\"lu\" interface=\"public_and_private\"/></component>\n"
     "  <encapsulation><component_ref component=\"lc\"><component_ref component=\"inner\"/></component_ref></encapsulation>\n"
     "  <connection component_1=\"lc\" component_2=\"inner\"><map_variables variable_1=\"v\" variable_2=\"w\"/></connection>\n"
     "</model>\n";
 static const char *S_IMP_LIB2 = PROLOG
     "<model xmlns=\"" NS20 "\" name=\"lib2\">\n"
     "  <units name=\"base2\"><unit units=\"metre\"/></units>\n"
+    "  <units name=\"other2\"><unit units=\"second\"/></units>\n"
     "  <component name=\"leaf\"><variable name=\"w\" units=\"base2\" interface=\"public\"/></component>\n"
     "</model>\n";
 
